@@ -45,22 +45,22 @@ Theorem C06_answered_together_once : forall c s ev,
 Proof. exact step_same_resolution. Qed.
 
 Theorem C06_no_panic : forall c n t0 h0 a0 evs ev,
-  node_ok n -> hist_wf c (sys_start n t0 h0 a0) evs ->
+  node_ok n -> hist_wf true c (sys_start n t0 h0 a0) evs ->
   let s := after c n t0 h0 a0 evs in
   ~ In OPanic (snd (step c s ev)) /\ forall i x, nth_error (lcs (pl s)) i = Some x -> l_pc x <> PPanicked.
 Proof.
-  intros c n t0 h0 a0 evs ev Hn Hwf s. destruct (wreach_no_panic c s (after_wreach c n t0 h0 a0 evs Hn Hwf)) as (A & B).
+  intros c n t0 h0 a0 evs ev Hn Hwf s. destruct (wreach_no_panic true c s eq_refl (after_wreach true c n t0 h0 a0 evs Hn Hwf)) as (A & B).
   split; [exact (B ev)|exact A].
 Qed.
 
 Theorem C06_never_stuck : forall c n t0 h0 a0 evs e,
-  node_ok n -> hist_wf c (sys_start n t0 h0 a0) evs ->
+  node_ok n -> hist_wf true c (sys_start n t0 h0 a0) evs ->
   let s := after c n t0 h0 a0 evs in
   entry_ (pl s) = Some e ->
   exists i x, nth_error (lcs (pl s)) i = Some x /\ attached (l_pc x) = true /\
     ((exists d, l_pc x = PSelect d /\ now s < d /\ d <= now s + mpp_ms c) \/
      (awaits (l_pc x) <> [] /\ forall k, In k (awaits (l_pc x)) -> exists cl, nth_error (calls s) k = Some cl /\ live (c_st cl))).
-Proof. intros c n t0 h0 a0 evs e Hn Hwf. exact (never_stuck c _ e (after_wreach c n t0 h0 a0 evs Hn Hwf)). Qed.
+Proof. intros c n t0 h0 a0 evs e Hn Hwf. exact (never_stuck true c _ e eq_refl (after_wreach true c n t0 h0 a0 evs Hn Hwf)). Qed.
 
 Theorem C06_answered_at_deadline : forall c s dt en i x dl,
   entry_ (pl s) = Some en -> nth_error (lcs (pl s)) i = Some x -> l_pc x = PSelect dl -> dl <= now s + dt ->
@@ -69,10 +69,10 @@ Theorem C06_answered_at_deadline : forall c s dt en i x dl,
 Proof. intros c s dt en i x dl He Hx Hp Hd. destruct (tick_at_deadline c s dt en i x dl He Hx Hp Hd) as (A & B & _). auto. Qed.
 
 Theorem C06_every_held_htlc_is_answered : forall c n t0 h0 a0 evs en h,
-  node_ok n -> hist_wf c (sys_start n t0 h0 a0) evs ->
+  node_ok n -> hist_wf true c (sys_start n t0 h0 a0) evs ->
   let s := after c n t0 h0 a0 evs in
   entry_ (pl s) = Some en -> In h (listeners en) -> Answered c (hid h) s.
-Proof. intros c n t0 h0 a0 evs en h Hn Hwf. exact (held_htlc_is_answered c _ en h (after_wreach c n t0 h0 a0 evs Hn Hwf)). Qed.
+Proof. intros c n t0 h0 a0 evs en h Hn Hwf. exact (held_htlc_is_answered c _ en h (after_wreach true c n t0 h0 a0 evs Hn Hwf)). Qed.
 
 (* non-vacuity: an HTLC is held, its lifecycle awaits the live state fetch *)
 Example C06_nonvacuous :
